@@ -120,6 +120,7 @@ class Extract:
     def __init__(self, sch, ref, fn, mode):
         self.sch, self.ref, self.rel, self.fn, self.mode = sch, ref, ref[0], fn, mode
         self.cond_stack = []
+        self.early_returns = []
         self.params = [a.arg for a in fn.args.args]
         self.streams = set()
         if len(self.params) > 1:
@@ -170,6 +171,11 @@ class Extract:
                         return
                     self.walk(s.body, guards + [(vc, True)], ctx)
                     self.walk(s.orelse, guards + [(vc, False)], ctx)
+                    if s.body and isinstance(s.body[-1], ast.Return) and not s.orelse:
+                        # `if <version cond>: ...; return` - what follows only runs when the condition is false
+                        self.early_returns.append((vc, s.lineno))
+                        self.walk(stmts[si + 1:], guards + [(vc, False)], ctx)
+                        return
                     continue
                 tn = self.tagnext(s.test)
                 if tn is not None:
@@ -234,7 +240,10 @@ class Extract:
 
     def tagnext(self, test):
         if isinstance(test, ast.Call) and isinstance(test.func, ast.Attribute) and test.func.attr == 'is_tag_next' and test.args:
-            return tag_of(test.args[0]) or ('?' + U(test.args[0]))
+            a0 = test.args[0]
+            if isinstance(a0, ast.Name) and tag_of(self.assign.get(a0.id)) :
+                return tag_of(self.assign.get(a0.id))
+            return tag_of(a0) or ('?' + U(a0))
         return None
 
     def typenext(self, test):
